@@ -7,6 +7,8 @@ import Gv.Model.BagHist
 import Gv.Model.Mask
 import Gv.Model.Compress
 import Gv.Oracle.Mask
+import Gv.Model.Translate
+import Gv.Model.Stats
 /-!
 Command-line glue (flag parsing, defaults, conversions, readers and writers) checked against the library
 models: `cli_lib <stdin FASTA, | = newline> <argv…>` — what the built binary must print for a command
@@ -91,6 +93,13 @@ def expected (rows : Rows) (argv : List String) : Option String :=
     let (rs, _, _) := compress rows L
     some (ok rs)
   | ["sort"] => some (ok (pairs (sortRows (addAllStop (newAlign 1) rows).1)))
+  | "translate" :: "--ref-seq" :: name :: fl => do
+    let ph ← parseInt? ((opt fl "--phase").getD "0")
+    let code : Int := match (opt fl "--genetic-code").getD "standard" with
+      | "standard" => 0 | "mitov" => 1 | "mitoi" => 2 | _ => 99
+    match translateByReferenceZ 1 ph code name rows with
+    | some r => some (ok r)
+    | none => some bad
   | "translate" :: fl => do
     -- cmd/translate.go on an alignment, one frame: every row translated from `phase`
     let ph ← ((opt fl "--phase").getD "0").toNat?
@@ -99,10 +108,51 @@ def expected (rows : Rows) (argv : List String) : Option String :=
     match rows.mapM (fun r => (translateSeq ph code r.2).map fun p => (r.1, p)) with
     | some r => some (ok r)
     | none => some bad
+  | "revcomp" :: rest =>
+    -- cmd/revcomp.go: names given -> only those rows; `--unaligned` reads and writes plain sequences
+    let names := rest.filter (· != "--unaligned")
+    let r := if names.isEmpty then revcompBag 1 rows else revcompSub 1 names rows
+    some (if r.2 then bad else ok r.1)
+  | "addid" :: fl =>
+    -- the default of -n is the string "none"
+    let id := (opt fl "-n").getD "none"
+    let right := flag fl "-r"
+    some (ok (rows.map fun r => (if right then r.1 ++ id else id ++ r.1, r.2)))
   | _ => none
+
+/-- `compute entropy [-a] [-g]`: numbers are printed with three decimals -/
+def entropyVerdict (rows : Rows) (fl : List String) (impl : String) : Option Ans := do
+  let L := lenOf rows
+  if L < 0 then none
+  let g := flag fl "-g"
+  let avg := flag fl "-a"
+  let es := (List.range L.toNat).map fun j => (entropy rows L (Int.ofNat j) g).getD (0.0 / 0.0)
+  let close (txt : String) (x : Float) : Bool :=
+    if x.isNaN then txt == "NaN" else
+    match DetOps.parseDec (if txt.startsWith "-" then (txt.drop 1).toString else txt) with
+    | some v => Float.abs ((if txt.startsWith "-" then -v else v) - x) ≤ 0.00051
+    | none => false
+  if !impl.startsWith "rc=0 out=" then some ⟨"rc=0", "fail:command-line-differs-from-library-model"⟩ else
+  let lines := ((impl.drop 9).toString.splitOn "|").filter (· != "")
+  if avg then
+    let fin := es.filter fun e => !e.isNaN
+    let m := fin.foldl (· + ·) 0.0 / Float.ofNat fin.length
+    let okk := match lines with
+      | [h, l] => h == "Alignment AvgEntropy" && (match l.splitOn " " with | ["0", v] => close v m | _ => false)
+      | _ => false
+    some ⟨if okk then impl else "average " ++ toString m, verdictOf okk "average-entropy-not-the-mean-of-the-defined-sites"⟩
+  else
+    let okk := lines.length == es.length + 1 && lines.headD "" == "Alignment Site Entropy" &&
+      ((lines.drop 1).zip (es.zipIdx)).all fun (l, (e, j)) =>
+        match l.splitOn " " with | ["0", jj, v] => jj == toString j && close v e | _ => false
+    some ⟨if okk then impl else "per-site " ++ toString es, verdictOf okk "site-entropy-differs-from-library-model"⟩
 
 def handle : Handler := fun op args impl =>
   match op, args with
+  | "cli_lib", stdin :: "compute" :: "entropy" :: fl =>
+    match entropyVerdict (parseFasta (stdin.splitOn "|")) fl impl with
+    | some a => some a
+    | none => some ⟨"unmodelled", "na"⟩
   | "cli_lib", stdin :: argv =>
     let rows := parseFasta (stdin.splitOn "|")
     match expected rows argv with
